@@ -40,7 +40,7 @@ m = {
     },
     "engines": json.load(open(os.path.join(ROOT, "tools", "engines.json"))),
     "checks": checks,
-    "notes": "Technique: machine-checked proof in Lean 4 about hand-written executable models (lean/DiscretModel/Model), tied to /repo on every run by a correspondence check (Rust harness drives the real code in-process, the compiled Lean model runs the same op file, outputs are diffed) and, where a property is about a syntactic enumeration, by translators regenerating Lean tables from the source. See DESIGN.md.",
+    "notes": "Technique: machine-checked proof in Lean 4 about hand-written executable models (lean/DiscretModel/Model), tied to /repo on every run by a correspondence check (Rust harness drives the real code in-process, the compiled Lean model runs the same op file, outputs are diffed) and, where a property is about a syntactic enumeration, by translators regenerating Lean tables from the source (T1-T6); since the second build session the decision kernels themselves (room.rs decision functions, the ingestion validators, the last-writer-wins filter, the import rules of room definitions, the decision of validate_deletion, the close-before-drain order of a connection) are RE-TRANSLATED from the Rust source on every run (T7-T12, translators/rustmini.py) and Lean equalities between the regenerated definitions and the hand-written models are proof obligations of the checks (checks/kernel.py). See DESIGN.md, in particular section 9.3.",
     "not_applicable": na,
 }
 json.dump(m, open(os.path.join(ROOT, "MANIFEST.json"), "w"), indent=1)
